@@ -186,7 +186,7 @@ def classParse (t len : Nat) (bs : Bytes) (cls : String) : Except PErr (Ext × N
     match extKindOf cls with
     | none => .error unmodelled
     | some kind =>
-      match parseExtBody kind len (bs.drop 4) with
+      match parseExtBody kind len ((bs.drop 4).take len) with
       | .ok (body, m) => .ok (⟨cls, t, body⟩, 4 + m)
       | .error e => .error e
 
